@@ -85,3 +85,12 @@ Proof.
   try (exfalso; lia).
 Qed.
 Print Assumptions C06_route_topic_cases.
+
+(* "... so only that status's step consumers see them": step.go never compares the record's status with the consumer's own, it
+   relies on the version — and that is enough (proofs/StepStatus.v; every history): the step function of status s is invoked
+   only for a run whose PERSISTED record is at status s *)
+From WF Require Import proofs.StepStatus.
+Theorem C06_step_function_runs_only_at_its_status : forall c ops, hist_ok ops ->
+  forall s view q now pl, In (TUser (UFStep s) view (Some q) now pl) (trace_of c ops) -> r_status q = s.
+Proof. exact step_invoked_at_its_status. Qed.
+Print Assumptions C06_step_function_runs_only_at_its_status.
